@@ -173,7 +173,7 @@ def child_sym(mod, cfg, schedule, opts, findings):
 
     if res["status"] == "exception":
         # an exception on a feasible path: candidate violation, to be replayed by the parent
-        res["claims"].append(dict(name="no_exception:" + res.get("exc_type", "?"), verdict="sat", trivial=False, models=[witness] if witness else [], solver_s=0.0, known=None))
+        res["claims"].append(dict(name="no_exception:" + res.get("exc_type", "?"), verdict="sat", trivial=False, models=[witness] if witness is not None else [], solver_s=0.0, known=None))
         res["stats"] = dict(E.stats, wall=time.time() - t0)
         return res
     if res["status"] == "unsupported":
@@ -660,6 +660,7 @@ def run_check(modname, tier, seed, only=None, mutations=None, write_evidence=Tru
                 known_hits[e["known"]]["cfgs"].append(configs[i])
             continue
         reproduced = None
+        other = None
         tried = []
         for (sched2, e2) in lst[:3]:
             for mv in e2["models"]:
@@ -670,8 +671,18 @@ def run_check(modname, tier, seed, only=None, mutations=None, write_evidence=Tru
                 if ok:
                     reproduced = (mv, rp)
                     break
+                if other is None and rp.get("status") == "ok":
+                    # the concrete run violates a different claim of the same property: still a real counterexample
+                    bad = [n for n, good in rp.get("claims", []) if not good and not any(fnmatch.fnmatch(n, f.get("claim", "*")) and _cfg_match(configs[i], f.get("config")) for f in findings_open)]
+                    if bad:
+                        other = (mv, rp, bad[0])
             if reproduced:
                 break
+        if not reproduced and other is not None:
+            if (i, other[2]) in seen_pairs:
+                continue  # that claim is decided (and replayed) on its own
+            reproduced = (other[0], other[1])
+            cname = other[2]
         if reproduced:
             mv, rp = reproduced
             rid = hashlib.sha256((cfg_key(configs[i]) + cname).encode()).hexdigest()[:10]
